@@ -53,6 +53,13 @@ def delete_side_case():
     return spec, muts, [('default', 'other', 'default'), ('other', 'default', 'other'), ('default', 'other', 'other')]
 
 
+def evolutions_of(muts, sql_for=None):
+    evs = [{'label': 'e1', 'mutations': [sigs.real_mutation(m) for m in muts]}]
+    if sql_for:
+        evs.insert(0, {'label': 'e0', 'mutations': [], 'sql_files': {sql_for: ['SELECT 1;']}})
+    return evs
+
+
 def run(ctx):
     evorig.setup()
     quick = ctx.tier == 'quick'
@@ -137,7 +144,11 @@ def run(ctx):
                     dbrig.insert_rows(mine, random.Random(seed), alias=alias)
                 # the upgrade, one database at a time
                 evorig.install_models(spec1)
-                evorig.set_evolutions('vapp', [{'label': 'e1', 'mutations': [sigs.real_mutation(m) for m in muts]}])
+                # every fourth split (and the scripted cases' last): the release also ships an earlier evolution as
+                # raw SQL for ONE of the databases (`<alias>_<label>.sql` next to an empty Python module)
+                sql_for = ('other' if k % 8 == 3 else 'default') if (k % 4 == 3 or (only_splits and k == len(only_splits) - 1)) else None
+                rep['sql_file_evolution_for'] = sql_for
+                evorig.set_evolutions('vapp', evolutions_of(muts, sql_for))
                 for alias, other in (('default', 'other'), ('other', 'default')):
                     before_other = evorig.snapshot(other)
                     before_mine = evorig.snapshot(alias)
@@ -270,7 +281,7 @@ def replay(ctx, obj):
         for alias in ('default', 'other'):
             evorig.run_evolver(alias)
         evorig.install_models(spec1)
-        evorig.set_evolutions('vapp', [{'label': 'e1', 'mutations': [sigs.real_mutation(m) for m in muts]}])
+        evorig.set_evolutions('vapp', evolutions_of(muts, r.get('sql_file_evolution_for')))
         for alias, other in (('default', 'other'), ('other', 'default')):
             before_other = evorig.snapshot(other)
             out = evorig.run_evolver(alias)
